@@ -418,6 +418,8 @@ func genC09(sg structGen) func(g *Gen, tier string) *Case {
 				ops = append(ops, TL(TNi(opAttach), TNi(1), TNi(g.Intn(2))))
 			}
 		}
+		// Export is a query too: both handles must produce the same document
+		ops = append(ops, TL(TNi(opExport), TNi(0), TNi(4701)), TL(TNi(opExport), TNi(1), TNi(4702)))
 		return &Case{Ops: ops}
 	}
 }
@@ -534,6 +536,13 @@ func monitorPersist(sg structGen, prop string) Monitor {
 					if (okPayload(obs[step+1]).U() != 0) != eq {
 						out = append(out, MonViolation{name + "/Equals/asymmetric", "Equals(a,b) differs from Equals(b,a)", step})
 					}
+				}
+			case opExport:
+				if prop == "C09" && step+1 < len(ops) && ops[step+1].L[0].I() == opExport && isOk(o) && isOk(obs[step+1]) &&
+					a[1].String() != ops[step+1].L[1].String() && okPayload(o).String() != okPayload(obs[step+1]).String() {
+					q := exportDiffRegime(name, okPayload(o), okPayload(obs[step+1]))
+					out = append(out, MonViolation{name + "/attach/exports-differ" + q,
+						fmt.Sprintf("Export through the creating handle gives %s, through the re-attached handle %s", trunc(okPayload(o).String()), trunc(okPayload(obs[step+1]).String())), step})
 				}
 			case opAttach:
 				if prop == "C09" && o.String() != "(9)" && !isOk(o) {
@@ -711,4 +720,44 @@ func trunc(s string) string {
 		return s[:80] + "..."
 	}
 	return s
+}
+
+// exportDiffRegime names the recorded regime two differing export documents fall into, if any:
+// the Count-Min allSum counter is a field of the Go handle only (so it differs between handles,
+// also inside a Top-K document), and a re-attached Redis bitset takes its size from the string
+// length in bytes times 8 although the constructor allocated `size` BYTES.
+func exportDiffRegime(name string, a, b Tok) string {
+	maskCMS := func(d Tok) Tok {
+		if d.Kind == 2 && len(d.L) >= 3 {
+			c := append([]Tok(nil), d.L...)
+			c[2] = TNu(0)
+			return TL(c...)
+		}
+		return d
+	}
+	switch name {
+	case "cms-redis":
+		if maskCMS(a).String() == maskCMS(b).String() {
+			return "/allsum-is-handle-local"
+		}
+	case "topk-redis":
+		mask := func(d Tok) Tok {
+			if d.Kind == 2 && len(d.L) >= 4 {
+				c := append([]Tok(nil), d.L...)
+				c[3] = maskCMS(c[3])
+				return TL(c...)
+			}
+			return d
+		}
+		if mask(a).String() == mask(b).String() {
+			return "/allsum-is-handle-local"
+		}
+	case "bloom-redis":
+		if a.Kind == 2 && b.Kind == 2 && len(a.L) == 3 && len(b.L) == 3 && a.L[0].String() == b.L[0].String() &&
+			a.L[1].String() == b.L[1].String() && len(a.L[2].B) >= 8 && len(b.L[2].B) >= 8 &&
+			string(a.L[2].B[8:]) == string(b.L[2].B[8:]) {
+			return "/bitset-size-prefix"
+		}
+	}
+	return ""
 }
